@@ -60,9 +60,11 @@ def build(extra_mods=(), force_assumed=()):
     iso = ''
     for p in sorted(glob.glob(os.path.join(VERIF, 'spec', 'iso*.vrs'))):
         iso += '// ---- %s\n' % os.path.basename(p) + open(p).read() + '\n'
-    chunks.append('pub mod iso {\nuse vstd::prelude::*;\nuse crate::*;\nverus! {\n%s\n}\n}\n' % iso)
+    ISO_SLOT = len(chunks)
+    chunks.append(iso)
     mods = list(CORE_MODS) + list(extra_mods)
     insertion_only = True
+    lost_all = []
     extracted = {}
     all_twins = []
     for m in mods:
@@ -83,10 +85,9 @@ def build(extra_mods=(), force_assumed=()):
         logs[m] = lg
     for m in mods:
         src = h2_callsites(extracted[m], all_twins, logs[m])
-        try:
-            spliced = splice_module(m, src, by_mod.get(m, []), registry)
-        except LostAnchor as e:
-            raise Undecided('lost anchor: %s' % e)
+        spliced, lost = splice_module(m, src, by_mod.get(m, []), registry)
+        for c_, why in lost:
+            lost_all.append((c_.name, why))
         spliced, ok = unsentinel(spliced, src)
         insertion_only = insertion_only and ok
         ghost = ''
@@ -107,11 +108,12 @@ def build(extra_mods=(), force_assumed=()):
             ghost += '\n// ---- ghost additions (G1) from spec/mod_%s.vrs\n' % m + open(gp).read()
         globs = ''.join('use crate::%s::*;\n' % o for o in mods if o != m)
         chunks.append('pub mod %s {\nuse vstd::prelude::*;\nuse crate::iso::*;\n%sverus! {\n%s\n%s\n}\n} // @endmod\n' % (m, globs, spliced, ghost))
+    chunks[ISO_SLOT] = 'pub mod iso {\nuse vstd::prelude::*;\nuse crate::*;\n%sverus! {\n%s\n}\n}\n' % (''.join('use crate::%s::*;\n' % o for o in mods), iso)
     chunks.append('verus! {\n' + open(os.path.join(VERIF, 'spec', 'prelude.vrs')).read() + '\n}\nfn main() {}\n')
     text = ''.join(chunks)
     if not insertion_only:
         raise Undecided('internal: splice was not insertion-only')
-    return {'text': text, 'registry': registry, 'logs': logs, 'contracts': allc}
+    return {'text': text, 'registry': registry, 'logs': logs, 'contracts': allc, 'lost': lost_all}
 
 
 def line_index(text):
@@ -212,6 +214,13 @@ TOOL_LIMIT_PATTERNS = [
     r'timed? ?out', r'could not', r'internal error', r'panicked', r'loop must have a decreases clause',
     r'assume_specification', r'must have a decreases',
 ]
+FAILURE_PATTERNS = [
+    r'^postcondition not satisfied', r'^precondition not satisfied', r'^invariant not satisfied', r'^assertion failed',
+    r'^possible arithmetic underflow/overflow', r'^possible division by zero', r'^possible bit shift',
+    r'^decreases not satisfied', r'^expression simplifies to', r'^loop invariant', r'^could not prove termination',
+    r'^unable to prove assertion safety condition', r'^recommendation not met', r'^failed precondition',
+    r'^termination', r'^cannot show invariant', r'^index out of bounds', r'^possible overflow',
+]
 SAFETY_MSGS = [
     'possible arithmetic underflow/overflow', 'possible division by zero', 'possible bit shift underflow/overflow',
     'decreases not satisfied', 'index out of bounds',
@@ -261,6 +270,8 @@ def classify(res, text, registry):
         # rustc errors (with an error code) or parse errors are never verification failures
         if re.search(r'^(expected|unexpected|cannot find|mismatched|unresolved|no method|failed to resolve)', msg):
             is_tool = True
+        if not any(re.search(p_, msg) for p_ in FAILURE_PATTERNS):
+            is_tool = True   # only recognised proof-obligation failures can ever become violations
         if is_tool:
             line = spans[0]['line_start'] if spans else 0
             tool.append('%s (line %d, fn %s)' % (msg, line, fn_at(line)))
